@@ -520,11 +520,15 @@ macro "go_cong" : tactic => `(tactic|
   repeat' (first
     | (with_reducible rfl)
     | omega
-    | (refine bind_congr_both ?_ (fun _ => ?_))
-    | (refine congrArg (pure : _ → R _) ?_)
-    | (refine Prod.ext ?_ ?_)
-    | (funext _)
-    | (congr 1)))
+    | (-- an integer equation that `omega` does not prove is left alone (taking it apart never helps)
+       fail_if_success (refine (?_ : @Eq Int _ _))
+       fail_if_success (refine (?_ : @Eq Nat _ _))
+       first
+         | (refine bind_congr_both ?_ (fun _ => ?_))
+         | (refine congrArg (pure : _ → R _) ?_)
+         | (refine Prod.ext ?_ ?_)
+         | (funext _)
+         | (with_reducible congr 1))))
 
 /-- split every `if`/`match` on both sides; contradictory cases by arithmetic, the others by congruence -/
 macro "go_close'" : tactic => `(tactic|
@@ -535,7 +539,6 @@ macro "go_close'" : tactic => `(tactic|
       | (simp_all only [Bool.false_eq_true, Bool.true_eq_false, Bool.not_eq_true, Bool.not_eq_false, not_true_eq_false,
           not_false_eq_true]; done)
       | (go_cong; done)
-      | rfl
       | (simp_all; done)
       | grind [List.isEmpty_iff])))
 
